@@ -18,6 +18,7 @@ import sys
 sys.path.insert(0, os.path.dirname(os.path.abspath(__file__)))
 from confirm_seed import ROOT, BASE, sh, passed_tests  # noqa: E402
 
+HENV = os.environ.get('VF_HARNESS_ENV', '')
 FEATS = ['', '--no-default-features --features std,lfn,unicode', '--no-default-features --features std,alloc,lfn',
          '--no-default-features']
 
@@ -25,7 +26,7 @@ FEATS = ['', '--no-default-features --features std,lfn,unicode', '--no-default-f
 def norm(out):
     keep = []
     for l in out.splitlines():
-        if re.search(r'finished in|Finished|Running|Compiling|warning|^\s*$|-->|^\s*\||^\s*=', l):
+        if re.search(r'finished in|Finished|Running|Compiling|warning|^\s*$|-->|^\s*\||^\s*=|has been running', l):
             continue
         keep.append(re.sub(r'\d+\.\d+s', 'Ts', l))
     return '\n'.join(keep)
@@ -47,7 +48,7 @@ def main():
     if harness:
         hname = os.path.splitext(harness[0])[0]
         shutil.copy(os.path.join(out, harness[0]), os.path.join(wt, 'tests', harness[0]))
-        rc, o = sh('cargo test --offline --test %s -- --nocapture --test-threads 1 2>&1' % hname, wt)
+        rc, o = sh(HENV + 'cargo test --offline --test %s -- --nocapture --test-threads 1 2>&1' % hname, wt, timeout=7200)
         if rc != 0:
             print('harness does not pass on the unchanged tree; continuing without it')
             print(o[-1500:])
@@ -85,7 +86,7 @@ def main():
             if missing:
                 bad = 'baseline tests fail: %s' % missing[:5]
         if bad is None and hname:
-            rc, o = sh('cargo test --offline --test %s -- --nocapture --test-threads 1 2>&1' % hname, wt)
+            rc, o = sh(HENV + 'cargo test --offline --test %s -- --nocapture --test-threads 1 2>&1' % hname, wt, timeout=7200)
             if rc != 0 or hashlib.sha256(norm(o).encode()).hexdigest() != ref:
                 bad = 'trace harness output differs from the unchanged tree (rc=%d)' % rc
         if bad:
